@@ -200,6 +200,6 @@ class Report:
         for rid, r in sorted(self.rules.items()):
             print('  %-5s %-4d inst %4d/%-4d obl  %s' % (rid, r['instances'], r['discharged'],
                                                        r['obligations'], r['desc']))
-        if self.broken:
-            return 2
-        return 1 if new else 0
+        if new:
+            return 1          # a reported violation takes precedence over an analysis-broken note
+        return 2 if self.broken else 0
